@@ -59,7 +59,7 @@ Section Step.
         [left; rewrite H; exact Hd|right; left; rewrite H; exact Hd|right; right; left; rewrite H; exact Hd|].
       right. right. right. rewrite H. split; [exact Hd1|]. split; [exact Hd2|].
       destruct (R_effect lvl c s e s' W (i_pend c s I1) Hs x)
-        as [Hq _|_ B1 _ _ _ _ _ _ _ _ _ _ _ _|_ A1 A2 A3 Apost A4 A5 A6 [K|(Hph & d & _ & _ & U)]].
+        as [Hq _|_ B1 _ _ _ _ _ _ _ _ _ _ _ _|_ A1 A2 A3 Apost A4 A5 A6 [K|(Hph & d & _ & _ & U)] A8].
       + destruct Hq as (Q1 & _ & _ & _ & _ & _ & _ & _ & Q9). rewrite Q1, Q9. exact Hd3.
       + apply rootb_false in Hx0. rewrite Hx0 in B1. rewrite B1 in Hd1. discriminate.
       + destruct K as (_ & _ & _ & _ & _ & _ & K7 & _ & K9 & _ & _).
@@ -68,7 +68,7 @@ Section Step.
         exfalso. destruct (Apost Hx0) as [(P1 & P2 & _)|(P1 & _)].
         * contradiction.
         * rewrite H, Hd1 in P1. discriminate.
-      + destruct U as (_ & Urc & _). destruct Hd3 as [Hd3|Hd3]; [rewrite Hph in Hd3; discriminate|].
+      + destruct U as (_ & Urc & _ & _). destruct Hd3 as [Hd3|Hd3]; [rewrite Hph in Hd3; discriminate|].
         right. rewrite Urc. exact Hd3.
     - (* cancel request *)
       split; [|rewrite H1, cancel_j_st; exact Hnd].
@@ -104,7 +104,7 @@ Section Step.
       { pose proof (i_pend c s I1 p x Hi) as Hm. apply In_members in Hm. tauto. }
       apply doomed_step; auto. }
     destruct (R_effect lvl c s e s' W (i_pend c s I1) Hs p)
-      as [Hq _|_ B1 _ B3 _ _ _ _ _ _ _ _ _ Bov|_ A1 A2 A3 Apost A4 A5 A6 [K|(Hph & d & Hd & Hnd & U)]].
+      as [Hq _|_ B1 _ B3 _ _ _ _ _ _ _ _ _ Bov|_ A1 A2 A3 Apost A4 A5 A6 [K|(Hph & d & Hd & Hnd & U)] A8].
     - destruct Hq as (Q1 & Q2 & _). rewrite Q1 in Hex. rewrite Q2 in Hin. auto.
     - exfalso. destruct B3 as [B3|B3]; rewrite B3 in Hex;
         destruct Hex as [[w Hw]|[[w Hw]|Hw]]; discriminate.
@@ -121,7 +121,7 @@ Section Step.
       + apply Hkeep; [left; exists w; reflexivity|exact Hin0].
       + apply Hkeep; [right; left; exists w; reflexivity|exact Hin0].
       + apply Hkeep; [right; right; reflexivity|exact Hin0].
-    - destruct U as (Us & Urc & [(w & Hw & Hp & Hps & Hcz & Hb)|(Hw & _)]).
+    - destruct U as (Us & Urc & Ufl & [(w & Hw & Hp & Hps & Hcz & Hb)|(Hw & _)]).
       + pose proof (Hcz x Hin) as Hc. rewrite Hp in Hin. apply In_diff in Hin. destruct Hin as [Hi1 Hi2].
         assert (Hf : finished (st (Jb s x)) = false).
         { destruct (finished (st (Jb s x))) eqn:Ef; [|reflexivity]. exfalso. apply Hi2.
